@@ -40,3 +40,10 @@ Theorem C07_resume_refuted_before_fix : exists p s,
   session_satisfies_old p s = true /\ policy_allows p (se_ncerts s) (se_chain_ok s) = false.
 Proof. exact server_resume_old_refuted. Qed.
 Print Assumptions C07_resume_refuted_before_fix.
+
+(* the numbering of the client-authentication policies (the library compares them numerically) is the one the
+   sources declare: Model/GenConsts.v is regenerated from the repository under test (tools/consts) before every build *)
+From V Require Import Model.GenConsts Proofs.TieC07.
+Theorem C07_policy_numbering_is_the_sources : TieC07.tie.
+Proof. exact TieC07.tie_holds. Qed.
+Print Assumptions C07_policy_numbering_is_the_sources.
